@@ -82,6 +82,7 @@ PROPS = {
     ]},
     'C18': {'jobs': [E2E_API, E2E_SD], 'rule': E2E_RULE},
     'C09': {'jobs': [E2E_TD, E2E_SD, E2E_HS], 'rule': E2E_RULE},
+    'C20': {'jobs': [], 'assumptions': []},
     'C19': {'jobs': [RTO, TIMER], 'assumptions': [
         'float64 arithmetic of rtoManager / calculateNextTimeout is proved over Rat; the Float instance is compared with the Go code bit for bit on sampled sequences',
         'timer automaton theorems assume fewer than 255 fired callbacks wait for the timer mutex at once (pending is a uint8; witness C19_pending_wrap_witness, known finding K19-pending-uint8)',
